@@ -320,3 +320,7 @@ def replay(run, data) -> None:
         sb.cleanup()
     run.case(case, True, sample=case, tag='replay')
     run.case('pad', True)
+
+
+# (kept at the end of the file so that the text above stays the description the check was first built to)
+RULE += ' ' + "Later additions: the root given as a path object, through a sibling ('rootx/../root') and with a doubled separator; constrain_path switched on through the attribute; chain prefixes 'sub/' and './sub'; File handles passed to open_bin / open_str; unify_path() judged on its own (refuses the name or returns one that stays below the folder it is joined to)."
